@@ -14,6 +14,9 @@ pub struct MapShape {
     pub sources_content: bool,
     /// 0 = covers the program from its first line, 1 = first token late in the file, 2 = no mapping at all
     pub coverage: u8,
+    /// some tokens are range mappings (then every non-empty line has a token at column 0, so a
+    /// lookup never falls back across lines)
+    pub ranges: bool,
 }
 
 pub fn gen_shape(rng: &mut Rng) -> MapShape {
@@ -32,6 +35,7 @@ pub fn gen_shape(rng: &mut Rng) -> MapShape {
         sourceless_segments: rng.chance(1, 4),
         sources_content: rng.chance(1, 3),
         coverage: *rng.pick(&[0u8, 0, 0, 0, 0, 0, 0, 1, 1, 2]),
+        ranges: rng.chance(1, 5),
     }
 }
 
@@ -81,7 +85,7 @@ pub fn gen_orig_map(rng: &mut Rng, program: &str, shape: &MapShape) -> Map {
     let mut sl = rng.below(5) as u32;
     for (li, line) in program.split('\n').enumerate() {
         let len = line.trim_end_matches('\r').chars().count();
-        if len == 0 || !rng.chance(line_p, 10) {
+        if len == 0 || (!shape.ranges && !rng.chance(line_p, 10)) {
             continue;
         }
         // source lines mostly increase but may jump backwards (hoisting, helpers)
@@ -90,7 +94,7 @@ pub fn gen_orig_map(rng: &mut Rng, program: &str, shape: &MapShape) -> Map {
         } else {
             sl += rng.below(3) as u32;
         }
-        let mut col = if rng.chance(2, 3) { 0 } else { rng.below(len.min(8)) };
+        let mut col = if shape.ranges || rng.chance(2, 3) { 0 } else { rng.below(len.min(8)) };
         let mut sc = rng.below(6) as u32;
         while col < len {
             let src = rng.below(shape.sources) as u32;
@@ -99,17 +103,17 @@ pub fn gen_orig_map(rng: &mut Rng, program: &str, shape: &MapShape) -> Map {
             } else {
                 None
             };
-            if shape.sourceless_segments && rng.chance(1, 12) {
-                m.toks.push(Tok { gl: li as u32, gc: col as u32, src: None, sl: 0, sc: 0, name: None });
+            if shape.sourceless_segments && !shape.ranges && rng.chance(1, 12) {
+                m.toks.push(Tok { gl: li as u32, gc: col as u32, src: None, sl: 0, sc: 0, name: None, range: false });
             } else {
-                m.toks.push(Tok { gl: li as u32, gc: col as u32, src: Some(src), sl, sc, name });
+                m.toks.push(Tok { gl: li as u32, gc: col as u32, src: Some(src), sl, sc, name, range: shape.ranges && rng.chance(1, 3) });
             }
             let step = if shape.sparse { rng.range(3, 25) } else { rng.range(1, 9) };
             col += step;
             sc += rng.range(1, 12) as u32;
         }
     }
-    match shape.coverage {
+    match if shape.ranges { 0 } else { shape.coverage } {
         1 => {
             // only the last quarter of the lines is mapped
             let n_lines = program.split('\n').count() as u32;
@@ -118,7 +122,7 @@ pub fn gen_orig_map(rng: &mut Rng, program: &str, shape: &MapShape) -> Map {
         2 => m.toks.clear(),
         _ => {
             if m.toks.is_empty() {
-                m.toks.push(Tok { gl: 0, gc: 0, src: Some(0), sl: 0, sc: 0, name: None });
+                m.toks.push(Tok { gl: 0, gc: 0, src: Some(0), sl: 0, sc: 0, name: None, range: false });
             }
         }
     }
